@@ -30,7 +30,10 @@ RULE = ("cases = interception plans (0-8 entries per family built by truncating 
         "name-server families. A third of the random plans, every corpus plan and a stream of nested chains (3-5 "
         "nested entries of alternating action with one common port spec, both families, shuffled) are fed through "
         "the REAL firewall.main() over its ROUTES/NSLIST/PORTS/GO line protocol (fake stdin/stdout, fakes only at "
-        "the subprocess/ioctl boundary) and the rules installed when it says STARTED are judged. Stale-session "
+        "the subprocess/ioctl boundary) and the rules installed when it says STARTED are judged. End-to-end cases: "
+        "the dialogue bytes are produced by the REAL FirewallClient (real __init__ over a socketpair with a fake "
+        "Popen, real setup()/start()) for plans with user/group ids in {None, 0, 1, 1000} and fed unchanged to "
+        "the real firewall.main; verdicts per owner are judged against the plan the client was given. Stale-session "
         "cases (nat, nft, tproxy, tproxy+udp): the real set-up of a first plan acts on a stateful table/chain/rule "
         "state (tool exit codes and the -nL listing come from that state), no tear-down runs (the helper was "
         "killed), then the real set-up of a different plan with the same ports/families/owner runs on top and the "
@@ -322,7 +325,79 @@ def helper_input(plan):
     return ('\n'.join(lines) + '\n').encode('ASCII')
 
 
-def run_real_main(method, plan):
+class _ClientHelperProc(object):
+    """What FirewallClient gets from `Popen(...)`: a helper that is alive; its end of the socketpair is kept
+    open (dup) so that the client's writes can be read back, and it has already said READY and STARTED."""
+
+    def __init__(self, argv, stdout=None, stdin=None, **kw):
+        import os as _os
+        self.argv = list(argv)
+        self.pid = 4243
+        self.sock = socket.socket(fileno=_os.dup(stdout.fileno()))
+        self.method_name = argv[argv.index('--method') + 1] if '--method' in argv else 'auto'
+        self.sock.sendall(('READY %s\nSTARTED\n' % self.method_name).encode('ascii'))
+
+    def poll(self):
+        return None
+
+    def received(self):
+        self.sock.setblocking(False)
+        data = b''
+        try:
+            while True:
+                chunk = self.sock.recv(65536)
+                if not chunk:
+                    break
+                data += chunk
+        except (BlockingIOError, InterruptedError):
+            pass
+        return data
+
+    def close(self):
+        try:
+            self.sock.close()
+        except OSError:
+            pass
+
+
+def client_owner(x):
+    """The owner as client.main hands it to FirewallClient.setup: a numeric id (pwd/grp lookup done)."""
+    return None if x is None else int(x)
+
+
+def client_dialogue(method, plan):
+    """The bytes the REAL FirewallClient (real __init__ over a real socketpair with a fake Popen, real setup(),
+    real start()) writes to the firewall helper for this plan."""
+    import subprocess
+    import sshuttle.client as client
+    import sshuttle.helpers as helpers
+    helpers.verbose = 0
+    mname = 'pf' if method.startswith('pf-') else 'tproxy' if method.startswith('tproxy') else method
+    procs = []
+    old = (subprocess.Popen, sys.stderr)
+    subprocess.Popen = lambda argv, **kw: (procs.append(_ClientHelperProc(argv, **kw)), procs[-1])[1]
+    sys.stderr = io.StringIO()
+    fwc = None
+    try:
+        fwc = client.FirewallClient(mname, False)
+        inc = [(f, ip, w, fp, lp) for (f, w, x, ip, fp, lp) in plan.subnets if not x]
+        exc = [(f, ip, w, fp, lp) for (f, w, x, ip, fp, lp) in plan.subnets if x]
+        fwc.setup(inc, exc, list(plan.nslist), plan.port6, plan.port4, plan.dns6, plan.dns4, plan.udp,
+                  client_owner(plan.user), client_owner(plan.group), plan.tmark)
+        fwc.start()
+        return procs[-1].received()
+    finally:
+        subprocess.Popen, sys.stderr = old
+        for pr in procs:
+            pr.close()
+        try:
+            if fwc is not None:
+                fwc.pfile.close()
+        except Exception:  # noqa
+            pass
+
+
+def run_real_main(method, plan, dialogue=None):
     """Drive the REAL sshuttle.firewall.main() over its line protocol (fake stdin/stdout, fakes only at the
     subprocess / ioctl boundary) and return the rule-creating commands it had issued when it said STARTED
     (the tear-down that follows the end of stdin is not part of the installed rule set)."""
@@ -330,7 +405,7 @@ def run_real_main(method, plan):
 
     def body(m, rec):
         out = _HelperStdout(rec)
-        stdin = io.BytesIO(helper_input(plan))
+        stdin = io.BytesIO(helper_input(plan) if dialogue is None else dialogue)
         saved = (fw.setup_daemon, fw.get_method, fw.rewrite_etc_hosts, fw.restore_etc_hosts,
                  fw.flush_systemd_dns_cache, m.is_supported)
         fw.setup_daemon = lambda: (stdin, out)
@@ -363,6 +438,13 @@ def real_plan_cmds(method, plan, via):
     """-> ('ok', cmds, per-call results) | (kind, tag, per-call results)."""
     if via == 'helper':
         res = run_real_main(method, plan)
+        return (res[0], res[1], [])
+    if via == 'client':
+        try:
+            dialogue = client_dialogue(method, plan)
+        except Exception as e:  # noqa
+            return ('client-failed', '%s: %s' % (type(e).__name__, e), [])
+        res = run_real_main(method, plan, dialogue)
         return (res[0], res[1], [])
     cmds = []
     per_call = []
@@ -1484,6 +1566,8 @@ def classify(method, plan, k, got, want, via='direct'):
         return KNOWN_MASK32_KEY
     if via == 'helper':
         method = 'via-helper:' + method
+    if via == 'client':
+        method = 'via-client:' + method
     return _classify(method, plan, k, got, want)
 
 
@@ -1491,6 +1575,10 @@ def _classify(method, plan, k, got, want):
     fam6, dst, dport, proto, loc, dl, uid, gid, sock = k
     if got.startswith('rule rejected') or got.startswith('setup failed'):
         return 'C03:%s:rules-not-loadable' % method
+    if want == 'u' and got.startswith('d') and (plan.user is not None or plan.group is not None) and \
+            method.split(':')[-1] == 'nat' and \
+            (not loc or (plan.user is not None and uid != plan.user) or (plan.group is not None and gid != plan.group)):
+        return 'C03:%s:traffic-of-another-owner-diverted' % method
     dnsport = plan.dns6 if fam6 else plan.dns4
     if got == 'd%d' % dnsport and want != got:
         return 'C03:%s:dns-divert-of-non-nameserver' % method
@@ -1505,7 +1593,7 @@ def _classify(method, plan, k, got, want):
 
 def run_plan(ctx, method, plan, log, budget, lean_cells, via='direct'):
     rng = ctx.rng
-    tag = 'via-helper:' + method if via == 'helper' else method
+    tag = 'via-helper:' + method if via == 'helper' else 'via-client:' + method if via == 'client' else method
     kind, val, per_call = real_plan_cmds(method, plan, via)
     for c, res in per_call:
         log.ins.append(setup_line(method, c))
@@ -1568,7 +1656,9 @@ def run_plan(ctx, method, plan, log, budget, lean_cells, via='direct'):
                       expected='%s (property evaluated on the plan)' % w2,
                       observed='%s (walk over the rules the real %s emitted); %d of %d cells of the original plan '
                                'disagree in this class' % (
-                                   g2, 'firewall.main + setup_firewall' if via == 'helper' else 'setup_firewall',
+                                   g2, 'firewall.main + setup_firewall' if via == 'helper' else
+                                   'FirewallClient.start -> firewall.main -> setup_firewall' if via == 'client' else
+                                   'setup_firewall',
                                    nbad[key], len(ks)))
     # a sample of cells goes through the Lean walk and the Lean spec as well
     if lean_cells and ks:
@@ -1625,6 +1715,27 @@ def gen_and_run(ctx):
             ctx.mark(canon_plan(method, plan) + ('helper',), True)
             if i < 1 and method == 'nft':
                 ctx.sample(dict(method=method, path='firewall.main', helper_stdin=helper_input(plan).decode('ascii'),
+                                real_code_output=lg.outs[:1]))
+    # 2b'. end to end: the dialogue bytes come from the REAL FirewallClient.setup()/start() and are fed unchanged
+    #      to the real firewall.main; owner restriction by numeric id as client.main resolves it
+    ids = [None, '0', '1', '1000']
+    combos = [(u, g) for u in ids for g in ids]
+    for i in range(ctx.scale(16, 320)):
+        for method in METHODS:
+            if method != 'nat' and i >= ctx.scale(4, 60):
+                continue
+            plan = rand_plan(rng, method) if i % 2 else nested_plan(rng, method)
+            plan.user, plan.group = combos[i % len(combos)] if method == 'nat' else (None, None)
+            lg = Case()
+            run_plan(ctx, method, plan, lg, 250, 10, 'client')
+            logs.append((method, lg))
+            ctx.hist('path:client')
+            if method == 'nat':
+                ctx.hist('client-owner:user=%s,group=%s' % (plan.user, plan.group))
+            ctx.mark(canon_plan(method, plan) + ('client',), True)
+            if i == 1 and method == 'nat':
+                ctx.sample(dict(method=method, path='FirewallClient -> firewall.main',
+                                client_dialogue=client_dialogue(method, plan).decode('ascii'),
                                 real_code_output=lg.outs[:1]))
     # 2c. a session set up on top of what a killed session left (same ports, no tear-down in between)
     for i in range(ctx.scale(16, 500)):
